@@ -149,12 +149,15 @@ def r1(ck, cmd_push, seq, par):
         if idx:
             base, rng = idx[0][2][0], idx[0][2][1]
             base_ok = isinstance(base, tuple) and base[0] == "field" and base[2] == "series_patches"
-            rng_ok = isinstance(rng, tuple) and rng[0] == "agg" and rng[1].endswith("ops::range::Range") and \
-                rng[3][0] == ("const", 0, "usize") and isinstance(rng[3][1], tuple) and rng[3][1][0] == "field" and \
-                rng[3][1][2] == "applied_patches"
+            end = None
+            if isinstance(rng, tuple) and rng[0] == "agg" and rng[1].endswith("ops::range::Range") and rng[3][0] == ("const", 0, "usize"):
+                end = rng[3][1]             # [0..n]
+            elif isinstance(rng, tuple) and rng[0] == "agg" and rng[1].endswith("ops::range::RangeTo") and len(rng[3]) == 1:
+                end = rng[3][0]             # [..n]
+            rng_ok = isinstance(end, tuple) and end[0] == "field" and end[2] == "applied_patches"
             res_ok = False
             if rng_ok:
-                src = rng[3][1][1]
+                src = end[1]
                 if isinstance(src, tuple) and src[0] == "local":
                     defs = df.all_def_exprs(cmd_push, src[1])
                     res_ok = bool(defs) and all(
@@ -437,33 +440,37 @@ def r5(ck, main, cmd_push, seq, par):
     if not ck.require(len(runs) == 1, rule, "main calls cmd::run once", "main calls cmd::run %d times" % len(runs), main.where()):
         return
     bb, t, c = runs[0]
-    re = pt.result_edges(main, bb)
-    if not ck.require(bool(re and re["ok"] and re["err"]), rule, "main matches on the result of run", "main does not match on Ok/Err of run", main.where(t)):
-        return
+    # exit status as a function of run's result, by reachability under assumptions (pathconst): whatever the spelling - a match with
+    # three arms, a flag computed from the result and tested once, early exits - Err and Ok(false) end in process::exit(1) on every
+    # path, Ok(true) returns normally
+    from .. import pathconst
     exits = exit_blocks(main)
     rets = set(cfg.exits(main))
+    res_locals = set(df.operand_trace(main, {"k": "copy", "pl": t["dest"]})) | {t["dest"]["l"]}
 
-    def all_paths_exit_1(start):
-        r = cfg.reachable(main, [start])
-        if r & rets:
-            return False, "a return is reachable"
-        ends = [b for b in r if not main.succs(b)]
-        bad = [b for b in ends if b not in exits or exits[b] != ("const", 1, "i32")]
-        if bad or not ends:
-            return False, "path ends without process::exit(1) (bb%s)" % bad
-        return True, ""
-    for e in re["err"]:
-        ok, why = all_paths_exit_1(e[1])
-        ck.require(ok, rule, "Err arm of main exits with status 1", why, main.where())
-    payload = pt.ok_payload_switch(main, re["local"])
-    if not ck.require(len(payload) >= 1, rule, "main distinguishes Ok(true) from Ok(false)", "no test of the Ok payload in main", main.where()):
-        return
-    for sw in payload:
-        ok, why = all_paths_exit_1(sw["false_edge"][1])
-        ck.require(ok, rule, "Ok(false) arm of main exits with status 1", why, main.where())
-        r = cfg.reachable(main, [sw["true_edge"][1]])
-        ck.require(bool(r & rets) and not (set(exits) & r), rule, "Ok(true) arm of main returns normally (status 0)",
-                   "Ok(true) arm reaches process::exit or never returns", main.where())
+    def scenario(variant_name, payload):
+        def variant(e, adt):
+            if (adt or "").endswith("result::Result") and df.mentions(e, lambda x: df.is_call(x, "rapidquilt::cmd::run")) or \
+                    (isinstance(e, tuple) and e and e[0] == "local" and e[1] in res_locals):
+                return variant_name
+            return None
+
+        def atom(e):
+            if isinstance(e, tuple) and e and e[0] == "field" and e[2] == 0 and isinstance(e[1], tuple) and e[1][0] == "downcast" and e[1][2] == "Ok" and \
+                    df.mentions(e[1][1], lambda x: df.is_call(x, "rapidquilt::cmd::run")):
+                return payload
+            return None
+        return pathconst.reach_under(main, atom, variant)
+    for label, vn, pl_ in (("Err", "Err", None), ("Ok(false)", "Ok", False)):
+        r = scenario(vn, pl_)
+        ends = [b for b in r if not [x for x in main.succs(b) if not main.blocks[x]["cleanup"]] and main.blocks[b]["term"]["k"] != "unreachable"]
+        bad = [b for b in ends if b in rets or b not in exits or exits[b] != ("const", 1, "i32")]
+        ck.require(bool(ends) and not bad, rule, "%s%s of run: main exits with status 1" % (label, " arm" if label == "Err" else ""),
+                   "when run returns %s main can %s" % (label, "return normally (status 0)" if any(b in rets for b in bad) else "end without process::exit(1) (bb%s)" % bad),
+                   main.where(), ok_detail="every path ends in process::exit(1)")
+    r = scenario("Ok", True)
+    ck.require(bool(r & rets) and not (set(exits) & r), rule, "Ok(true) of run: main returns normally (status 0)",
+               "when run returns Ok(true) main reaches process::exit or never returns", main.where())
     # cmd_push: Ok(skipped_patches == 0) of the driver result
     oks = []
     for bb_, idx, s in cmd_push.stmts():
